@@ -1,5 +1,6 @@
 (* Helpers shared by the case runners. *)
 From Coq Require Import List NArith ZArith Bool.
+From Coq Require Import Strings.Byte.
 From UF Require Import Base.Lit Base.Bytes Base.Codec Model.NetRule.
 Import ListNotations.
 
@@ -15,3 +16,37 @@ Definition show_res {A} (show : A -> bytes) (r : res A) : bytes :=
 
 Definition show_opt_text (r : option net_rule) : bytes :=
   match r with None => $"nil" | Some r => hex_encode (nr_text r) end.
+
+(* ---- requests and the Public Suffix List oracle ---- *)
+From UF Require Import Model.Netip Model.Request.
+
+(* psl table: flat list [host; suffix; "1"|"0"; host; suffix; ...] *)
+Fixpoint psl_table (l : list bytes) : list (bytes * (bytes * bool)) :=
+  match l with
+  | h :: s :: i :: l' => (h, (s, dec_bool i)) :: psl_table l'
+  | _ => []
+  end.
+Fixpoint assoc_b {A} (k : bytes) (l : list (bytes * A)) : option A :=
+  match l with [] => None | (k', v) :: l' => if bytes_eqb k k' then Some v else assoc_b k l' end.
+Definition psl_of (tbl : list (bytes * (bytes * bool))) (h : bytes) : bytes * bool :=
+  match assoc_b h tbl with Some x => x | None => ([], false) end.
+
+(* request encoding of the harness: kind;url;source;type;hostname;clientname;clientip;tags;dnstype *)
+Definition decode_req (psl : bytes -> bytes * bool) (s : bytes) : res request :=
+  match split_byte ";"%byte s with
+  | [kind; url; source; typ; host; cname; cip; tags; dtype] =>
+    match hex_decode url, hex_decode source, N_of_dec typ, hex_decode host, hex_decode cname,
+          hex_decode cip, dec_list tags, N_of_dec dtype with
+    | Some url, Some source, Some typ, Some host, Some cname, Some cip, Some tags, Some dtype =>
+      if bytes_eqb kind $"url" then
+        if all_ascii url && all_ascii source then Ok (new_request psl url source typ) else Unsupported
+      else
+        if negb (all_ascii host) then Unsupported else
+        match (if isnil cip then Ok None else match parse_addr cip with Ok a => Ok (Some a) | Err => Ok None | Crash => Crash | Unsupported => Unsupported end) with
+        | Ok ip => Ok (new_hostname_request psl host cname ip tags dtype)
+        | Err => Err | Crash => Crash | Unsupported => Unsupported
+        end
+    | _, _, _, _, _, _, _, _ => Err
+    end
+  | _ => Err
+  end.
